@@ -54,6 +54,8 @@ pub struct W {
     pub t0: std::time::Instant,
     /// crash journal (only when VERIF_JOURNAL is set): the case about to run
     pub journal: Option<std::fs::File>,
+    /// tiny tier: calls made for the current buffer (capped)
+    pub tiny_calls: u32,
 }
 
 pub const BACKENDS3: [Backend; 3] = [Backend::Avx2, Backend::Sse42, Backend::Scalar];
@@ -61,7 +63,7 @@ pub const BACKENDS3: [Backend; 3] = [Backend::Avx2, Backend::Sse42, Backend::Sca
 impl W {
     pub fn new(prop: &str, tier: Tier, seed: u64, shard: u64, nshards: u64) -> W {
         let can_force = httparse::_verif::scan::get_runtime_feature().is_some();
-        W { ctx: Ctx::new(), st: Stats::new(), prop: prop.to_string(), tier, seed, shard, nshards, can_force, t0: std::time::Instant::now(), journal: std::env::var("VERIF_JOURNAL").ok().and_then(|p| std::fs::OpenOptions::new().create(true).write(true).open(p).ok()) }
+        W { ctx: Ctx::new(), st: Stats::new(), prop: prop.to_string(), tier, seed, shard, nshards, can_force, t0: std::time::Instant::now(), journal: std::env::var("VERIF_JOURNAL").ok().and_then(|p| std::fs::OpenOptions::new().create(true).write(true).open(p).ok()), tiny_calls: 0 }
     }
     /// Shard ownership by content hash: the per-shard sets of executed buffers are disjoint.
     #[inline]
